@@ -5,4 +5,4 @@ Require Extraction.
 Require Import ExtrOcamlBasic.
 From DI Require Import Syntax Subs Superset Substitute Spec.
 Extraction Language OCaml.
-Extraction "model.ml" term_eqb sup merge is_eq lookup subst_key reverse_map stable_key apply norm params equivb plain has_comm_binary.
+Extraction "model.ml" term_eqb sup merge is_eq lookup subst_key reverse_map stable_key wf_subsb apply norm params equivb plain has_comm_binary.
